@@ -24,6 +24,13 @@ def check(pc, goal, timeout_ms, dump=None, second=False):
     '''validity of  /\\ pc -> goal'''
     t0 = time.time()
     s = z3.Solver()
+    # a universally quantified goal is proved for fresh constants (skolemisation by hand, so that ground-instantiated axioms such as
+    # those of rsqrt see the skolem terms)
+    k = 0
+    while z3.is_quantifier(goal) and goal.is_forall() and k < 8:
+        consts = [z3.Const(f'sk!{goal.var_name(j)}!{k}_{j}', goal.var_sort(j)) for j in range(goal.num_vars())]
+        goal = z3.substitute_vars(goal.body(), *reversed(consts))
+        k += 1
     fs = list(pc) + [z3.Not(goal)]
     fs += th.rsqrt_axioms(fs)
     s.add(fs)
